@@ -56,6 +56,8 @@ func mutate(c negCase, b *base) (out []byte, d *big.Int, ok bool) {
 	}
 	asn1XY := func(x, y *big.Int) []byte { return asn1Cipher(x, y, b.c3, b.c2) }
 	switch c.Mut {
+	case "none": // the valid ciphertext itself (starting point of the fuzz target's edit scripts)
+		out = ct
 	case "sub":
 		if c.Pos >= len(ct) || c.Val&0xff == 0 {
 			return nil, nil, false
@@ -336,7 +338,15 @@ func judge(cvx *cv, priv *sm2.PrivateKey, d *big.Int, o decOpt, in, cand []byte)
 	return "refused: " + refErr.Error(), nil
 }
 
-func checkNegative(c negCase, r *h.Rec) error {
+func checkNegative(c negCase, r *h.Rec) error { return checkNegativeWith(c, nil, r) }
+
+// checkNegativeWith is checkNegative with an optional further transformation
+// `post` of the candidate byte string (the native fuzz target hands in an edit
+// script, a verbatim replacement or a re-assembly decoded from the fuzzer's
+// bytes). With post == nil it is checkNegative. With post != nil a candidate
+// that is still the valid ciphertext is judged like any other byte string
+// (the reference verdict decides) instead of being skipped.
+func checkNegativeWith(c negCase, post func(b *base, l layout, cand []byte) []byte, r *h.Rec) error {
 	b, err := getBase(c.B)
 	if err != nil {
 		return err
@@ -360,7 +370,10 @@ func checkNegative(c negCase, r *h.Rec) error {
 	if c.Mut == "sub" || c.Mut == "delete" {
 		r.Label("mut=%s@%s", c.Mut, region(l, b, valid, c.Pos))
 	}
-	if bytes.Equal(cand, valid) && d.Cmp(b.d) == 0 {
+	if post != nil {
+		cand = post(b, l, cand)
+	}
+	if post == nil && bytes.Equal(cand, valid) && d.Cmp(b.d) == 0 {
 		r.Label("mutation-is-identity (skipped)") // e.g. -x for x = 0
 		return nil
 	}
